@@ -174,6 +174,7 @@ func reconnectCase(c *vh.Ctx, st *stratum, i int) {
 		w = newWorldK(c, debounce, "k", kinit)
 	}
 	w.hist = hist
+	w.caseName = fmt.Sprintf("%s/%d", st.reconCase, i)
 	cur := w.a
 	defer func() {
 		if cur != w.a {
@@ -318,6 +319,7 @@ func reconnectCase(c *vh.Ctx, st *stratum, i int) {
 			}
 			old := cur
 			cur = next
+			w.cur = cur
 			for k, cl := range all {
 				cl.Connect(cur.srv.Discovery, envoyclient.Fault{}, k%3 == 0)
 			}
